@@ -299,10 +299,10 @@ func (h *harness) sectionFull() {
 	}
 	w.photonWorld(padv)
 	sfiles := map[string][]adv{}
-	for _, n := range []string{"12", "15"} {
+	for _, n := range []string{"11", "12", "15", "77"} {
 		sfiles["suse.linux.enterprise.server."+n+".xml.gz"] = advPair(rpmP, "suse-"+n, false)
 	}
-	for _, n := range []string{"15.5", "15.6"} {
+	for _, n := range []string{"15.5", "15.6", "15.10"} {
 		sfiles["opensuse.leap."+n+".xml.gz"] = advPair(rpmP, "leap-"+n, false)
 	}
 	w.suseWorld(sfiles)
@@ -380,9 +380,9 @@ func (h *harness) sectionFull() {
 	if len(failed) > 0 {
 		r.Fail("", "full: updaters failed against the generated world: "+strings.Join(failed, "; "))
 	}
-	wantUpd := len(h.fx.Dirs["alpine"]) + 1 + len(h.fx.UbuntuSeries) + 4 + 4 + 3 + 3 + (thisYear - 2007 + 1)
+	wantUpd := len(h.fx.Dirs["alpine"]) + 1 + len(h.fx.UbuntuSeries) + 4 + len(sfiles) + 3 + 3 + (thisYear - 2007 + 1)
 	if nUpd < wantUpd {
-		r.Fail("", fmt.Sprintf("full: only %d updaters stored advisories, expected at least %d (alpine per release, debian, ubuntu per series, osv x4, suse x4, photon x3, aws x3, oracle per year)", nUpd, wantUpd))
+		r.Fail("", fmt.Sprintf("full: only %d updaters stored advisories, expected at least %d (alpine per release, debian, ubuntu per series, osv x4, suse x7, photon x3, aws x3, oracle per year)", nUpd, wantUpd))
 	}
 
 	// ---- libindex
@@ -516,6 +516,21 @@ func (h *harness) sectionFull() {
 		for _, n := range []string{"15.5", "15.6"} {
 			imgs = append(imgs, rpmImg{"suse", "leap" + n, "etc/os-release", strings.ReplaceAll(sv["leap151OSRelease"], "15.1", n), "ADV-leap-" + n + "-vuln"})
 		}
+		// generated files: the text each row of the scanner tables matches; SLES
+		// majors and Leap versions beyond the fixtures
+		for _, d := range []string{"aws", "oracle", "photon"} {
+			for _, p := range h.samples[d] {
+				path := "etc/os-release"
+				if d == "oracle" {
+					path = "etc/issue" // not of the KEY=value shape: libindex's os-release scanner rejects the layer otherwise
+				}
+				imgs = append(imgs, rpmImg{d, "generated:" + p[0], path, p[1] + "\n", "ADV-" + d + "-" + p[0] + "-vuln"})
+			}
+		}
+		for _, n := range []string{"11", "77"} {
+			imgs = append(imgs, rpmImg{"suse", "generated:" + n, "etc/os-release", string(suseELOsRelease(n)), "ADV-suse-" + n + "-vuln"})
+		}
+		imgs = append(imgs, rpmImg{"suse", "generated:leap15.10", "etc/os-release", string(suseLeapOsRelease("15.10")), "ADV-leap-15.10-vuln"})
 		for i, im := range imgs {
 			flavour := []string{"sqlite", "ndb"}[i%2]
 			dbPath, db, err := rpmImageDB(rpmP, flavour, "")
@@ -529,6 +544,9 @@ func (h *harness) sectionFull() {
 					if e[1] == im.rel && (e[0] == "7" || e[0] == "8") {
 						want = append(want, "ADV-oracle-7+8-vuln")
 					}
+				}
+				if im.rel == "generated:7" || im.rel == "generated:8" {
+					want = append(want, "ADV-oracle-7+8-vuln")
 				}
 			}
 			base := map[string][]byte{im.path: []byte(im.content)}
